@@ -176,7 +176,7 @@ def c06(tier):
                 "relation; non-trivial = the shifted document has at least one element")
     r = common.rng("C06")
     # model: shift-commutation of the pipeline model on small grids
-    cfg = write_cfg("MC_C06", {"W": 2, "H": 2, "Alphabet": tla_set([32, 45, 124, 43, 46, 39, 126, 58, 97])},
+    cfg = write_cfg("MC_C06", {"W": 2, "H": 2, "Alphabet": tla_set([32, 45, 124, 43, 46, 39, 40, 41, 47, 92])},
                     ["ShiftCommutes"], init="MCInit", next_="MCNext")
     run.model("MC_Rel", cfg)
     corpus = gen.mixed_corpus(r, n)
@@ -421,9 +421,11 @@ def c09(tier):
                 "part: merge fixpoint + NoCollinearTouching as invariants of Pipeline.tla on all small grids. "
                 "non-trivial = the document has at least two plain lines, or is a run" % maxlen)
     r = common.rng("C09")
-    cfg = write_cfg("MC_C09", {"W": 3, "H": 2, "Alphabet": tla_set([32, 45, 124, 43, 126, 95, 61])},
-                    ["ModelC09", "MergeFixpoint"])
-    run.model("MC_Doc", cfg)
+    cfg = write_cfg("MC_C09", {"W": 3, "H": 2, "Alphabet": tla_set([32, 45, 124, 47, 92, 95] if tier == "quick" else [32, 45, 124, 43, 47, 92, 95, 40])},
+                    ["ModelC09", "MergeFixpoint", "Emit"])
+    res = run.model("MC_Doc", cfg)
+    replay_models(run, [res], ["C09"])
+    run.validate()
     runs = []
     HCH = "-~_=─–—┄═‾¯"
     VCH = "|:!│╎┊┆║"
